@@ -67,9 +67,16 @@ pub fn run(a: &HashMap<String, String>) -> Value {
     };
     let mk_fixed: Vec<Vec<String>> = mock.fixed().iter().map(|col| col.iter().map(cell).collect()).collect();
     let mk_sel: Vec<Vec<bool>> = mock.selectors().clone();
+    // informational only (is the supplied witness satisfying?). MockProver::verify can panic while FORMATTING a failure
+    // that involves a poisoned blinding-row cell (dev/util.rs `Value::Poison => unreachable!()`, e.g. a gate without
+    // selector): that is reported as null, it is not what this scenario is about.
+    let hook = std::panic::take_hook();
+    std::panic::set_hook(Box::new(|_| {}));
+    let verify_ok: Option<bool> = std::panic::catch_unwind(std::panic::AssertUnwindSafe(|| mock.verify().is_ok())).ok();
+    std::panic::set_hook(hook);
     let omega = Fq::ROOT_OF_UNITY.pow_vartime([1u64 << (Fq::S - k)]);
     json!({"scenario": "keygen", "k": k, "n": 1u64 << k, "omega": fq_hex(&omega), "delta": fq_hex(&Fq::DELTA),
            "keygen": {"columns": kg_cols, "sigma": sigma, "fixed": kg_fixed, "num_fixed_columns_after_selectors": vk.cs().num_fixed_columns()},
            "mock": {"columns": mk_cols, "mapping": mapping, "fixed": mk_fixed, "selectors": mk_sel,
-                    "usable_rows": mock.usable_rows().end, "verify_ok": mock.verify().is_ok()}})
+                    "usable_rows": mock.usable_rows().end, "verify_ok": verify_ok}})
 }
